@@ -92,6 +92,7 @@ ExactUniverse(layers) == \A j \in 1..Len(layers) : layers[j].k # "hard_sigmoid"
 NetShape(e) == (IF e.wscale # 0 THEN "wscale/" ELSE "") \o (IF e.pre.kind = "none" THEN "nopre" ELSE "pre") \o "/" \o (IF HasHead(e.layers) THEN "head" ELSE "nohead") \o (IF ExactUniverse(e.layers) THEN "/E" ELSE "/T")
 CheckDistill(e) ==
     IF e.res = "panic" THEN V("C01", e, FALSE, "afftree_from_layers panicked on a dimension-consistent network", "distill/panic/" \o NetShape(e))
+    ELSE IF ~AllExact(e.tree) THEN Note("INEXACT", e, "distilled tree not representable at the trace scale: exact comparison skipped")
     ELSE LET t == ToT(e.tree)  d == e.dim  F == NetPieces(e.layers, e.pre, d)
              pats == IF ~HasHead(e.layers) /\ e.pre.kind = "none" /\ e.wscale = 0 THEN NetPatterns(e.layers, d) ELSE {}
              full == {p \in pats : HasInterior(Closed(p.cons), d)}
